@@ -17,3 +17,17 @@ Proof.
   intros U g p start rest r tr HU H. unfold attempt_opt in H.
   exact (walk_opt_log U g p start HU _ _ _ _ _ _ _ _ H).
 Qed.
+
+(* The same for the code actually emitted: ANY program that the translator can read off the generated
+   text (Engine/Prog.v — whatever its tables, conditions and targets are, accepted by the checker or
+   not) reads left to right, at most three times per offset. *)
+From LogosV Require Import Engine.Prog Engine.ProgProofs.
+Theorem C20_emitted_reads_monotone_linear : forall U p n isprefix start (rest : list byte) r tr,
+  (1 <= U)%nat ->
+  attempt_prog U p n isprefix start rest = (r, tr) ->
+  exists hi, start <= hi /\ sorted_in start (offs tr) hi /\
+             N.of_nat (length tr) <= 3 * (hi + 1 - start).
+Proof.
+  intros U p n isprefix start rest r tr HU H. unfold attempt_prog in H.
+  exact (walk_prog_log U p isprefix start HU _ _ _ _ _ _ _ _ H).
+Qed.
